@@ -41,7 +41,7 @@ func loadScope(c *an.Ctx) (map[*ssa.Function][]an.CallEdge, []*ssa.Function) {
 	}
 	if app := p.Func("cmd/taskctl", "", "makeApp"); app != nil {
 		for _, a := range an.WithAnon(app) {
-			if a != app && len(an.CallsIn(a, "(*internal/config.Loader).Load")) > 0 {
+			if a != app && len(an.CallsIn(a, "(internal/config.Loader).Load")) > 0 {
 				add(a)
 			}
 		}
